@@ -159,6 +159,65 @@ fn sobs(text: &str) -> String {
     }
 }
 
+/// The HTTP helper the crate offers (`graphql_client::reqwest::post_graphql_blocking`, feature
+/// reqwest-blocking — the one the CLI is built with): a server may answer a GraphQL request with a
+/// well-formed response body under ANY status code (validation errors under 400 / 422, resolver failures
+/// under 500 ...); the helper's job is to hand that body to `Response<T>`.
+struct HttpQ;
+impl graphql_client::GraphQLQuery for HttpQ {
+    type Variables = Value;
+    type ResponseData = Value;
+    fn build_query(variables: Value) -> graphql_client::QueryBody<Value> {
+        graphql_client::QueryBody { variables, query: "query Q { x }", operation_name: "Q" }
+    }
+}
+
+/// one request on a loopback listener, answered with `status` and `body`
+fn http_sobs(status: u16, body: &str) -> Option<String> {
+    use std::io::{Read, Write};
+    let listener = std::net::TcpListener::bind("127.0.0.1:0").ok()?;
+    let port = listener.local_addr().ok()?.port();
+    let body_owned = body.to_string();
+    let server = std::thread::spawn(move || {
+        if let Ok((mut s, _)) = listener.accept() {
+            let _ = s.set_read_timeout(Some(std::time::Duration::from_secs(5)));
+            let mut buf = vec![];
+            let mut tmp = [0u8; 4096];
+            // read the head, then as many body bytes as Content-Length announces
+            let (mut head_end, mut want) = (None, 0usize);
+            loop {
+                match s.read(&mut tmp) {
+                    Ok(0) | Err(_) => break,
+                    Ok(n) => buf.extend_from_slice(&tmp[..n]),
+                }
+                if head_end.is_none() {
+                    if let Some(i) = buf.windows(4).position(|w| w == b"\r\n\r\n") {
+                        head_end = Some(i + 4);
+                        let head = String::from_utf8_lossy(&buf[..i]).to_lowercase();
+                        want = head.lines().find_map(|l| l.strip_prefix("content-length:").and_then(|v| v.trim().parse().ok())).unwrap_or(0);
+                    }
+                }
+                if let Some(h) = head_end {
+                    if buf.len() >= h + want {
+                        break;
+                    }
+                }
+            }
+            let reason = match status { 200 => "OK", 400 => "Bad Request", 422 => "Unprocessable Entity", 500 => "Internal Server Error", _ => "Status" };
+            let _ = write!(s, "HTTP/1.1 {} {}\r\nContent-Type: application/json\r\nContent-Length: {}\r\nConnection: close\r\n\r\n", status, reason, body_owned.len());
+            let _ = s.write_all(body_owned.as_bytes());
+            let _ = s.flush();
+        }
+    });
+    let client = reqwest::blocking::Client::builder().no_proxy().timeout(std::time::Duration::from_secs(10)).build().ok()?;
+    let r = graphql_client::reqwest::post_graphql_blocking::<HttpQ, _>(&client, format!("http://127.0.0.1:{}/graphql", port), json!({}));
+    let _ = server.join();
+    Some(match r {
+        Ok(resp) => format!("(SOk {})", coq::json(&serde_json::to_value(&resp).unwrap())),
+        Err(_) => "SErr".into(),
+    })
+}
+
 pub fn run(outdir: &Path, tier: &str, seed: u64, shards: usize, replay: Option<String>) {
     crate::runner::quiet_panics();
     let mut rng = Rng::new(seed ^ 0xC15);
@@ -201,6 +260,19 @@ pub fn run(outdir: &Path, tier: &str, seed: u64, shards: usize, replay: Option<S
             key: format!("body|{}", text),
             nontrivial: b.as_object().map(|m| m.len() > 0).unwrap_or(false),
         });
+        // the same body through the HTTP helper, under the status codes servers use for GraphQL replies
+        if cases.len() < 400 || cases.len() % 97 == 0 {
+            let status = [200u16, 400, 500, 422][cases.len() % 4];
+            if let Some(oh) = http_sobs(status, &text) {
+                *dist.entry(format!("http {}/{}", status, oh.split(' ').next().unwrap().trim_start_matches('('))).or_default() += 1;
+                cases.push(Case {
+                    coq: format!("(CBody {} {})", coq::json(b), oh),
+                    desc: json!({"kind": "body through post_graphql_blocking", "http_status": status, "input": b, "observed": oh.chars().take(200).collect::<String>()}),
+                    key: format!("http|{}|{}", status, text),
+                    nontrivial: true,
+                });
+            }
+        }
         // round trip through the Rust values
         let rt: Option<bool> = serde_json::from_str::<Resp>(&text).ok().map(|r| {
             let s = serde_json::to_string(&r).unwrap();
@@ -247,7 +319,7 @@ pub fn run(outdir: &Path, tier: &str, seed: u64, shards: usize, replay: Option<S
         outdir,
         shards,
         json!({
-            "rule": "bodies generated from the envelope grammar (every optional member absent / null / present; paths of length 0-4 mixing names (incl. empty, `a/`, `/`) and indices (0, i32::MAX); locations; nested extension JSON with floats; unknown members at every level) plus a stream of single-point corruptions; each through from_str and from_value with T = serde_json::Value, re-serialised; Rust-value round trip r == from_str(to_string(r)); Display of every distinct error entry. `wellformed` lists the cases outside the grammar.",
+            "rule": "bodies generated from the envelope grammar (every optional member absent / null / present; paths of length 0-4 mixing names (incl. empty, `a/`, `/`) and indices (0, i32::MAX); locations; nested extension JSON with floats; unknown members at every level) plus a stream of single-point corruptions; each through from_str and from_value with T = serde_json::Value, re-serialised; a share of them also through the crate's HTTP helper (reqwest::post_graphql_blocking against a loopback listener answering 200 / 400 / 422 / 500 with that body); Rust-value round trip r == from_str(to_string(r)); Display of every distinct error entry. `wellformed` lists the cases outside the grammar.",
             "exhaustive": false,
             "distribution": dist,
             "samples": samples,
